@@ -594,8 +594,84 @@ def r177(ctx, repo):
                label="no ambient input", nontrivial=False)
 
 
+H5EV = "dclab/rtdc_dataset/fmt_hdf5/events.py"
+HIEV = "dclab/rtdc_dataset/fmt_hierarchy/events.py"
+
+
+def r178(ctx, repo):
+    """Lazily cached feature arrays that are handed out without a copy must
+    be read-only (otherwise an in-place edit of what the caller received
+    changes what every later access returns)."""
+    n = 0
+    for rel in (H5EV, HIEV):
+        tree = repo.tree(rel)
+        for cls in [c for c in tree.body if isinstance(c, ast.ClassDef)]:
+            for m in [f for f in cls.body if isinstance(f, ast.FunctionDef)]:
+                for r in [x for x in walk(m) if isinstance(x, ast.Return)]:
+                    v = r.value
+                    memo = None
+                    copied = False
+                    if isinstance(v, ast.Call) and call_name(v) in (
+                            "np.array", "np.asarray", "np.asanyarray") \
+                            and v.args and is_self_attr(v.args[0]) \
+                            and v.args[0].attr.startswith("_"):
+                        memo = v.args[0].attr
+                        cp = kwarg(v, "copy")
+                        if call_name(v) == "np.array" and (
+                                cp is None or txt(cp) == "True"):
+                            copied = True
+                    if memo is None:
+                        continue
+                    # is it an array memo filled lazily in this class?
+                    fills = [a for f2 in cls.body
+                             if isinstance(f2, ast.FunctionDef)
+                             and f2.name != "__init__"
+                             for a in walk(f2) if isinstance(a, ast.Assign)
+                             and any(is_self_attr(t, memo)
+                                     for t in a.targets)]
+                    if not fills:
+                        continue
+                    n += 1
+                    if copied:
+                        ctx.ob("R17.8", True, f"{cls.name}.{m.name} returns "
+                               f"a copy of the memo self.{memo}", node=r,
+                               key=f"{rel}::{cls.name}.{m.name}::memo "
+                                   f"{memo} protected")
+                        continue
+                    prot = True
+                    for a in fills:
+                        blk = a.parent.body if hasattr(
+                            a.parent, "body") and a in getattr(
+                            a.parent, "body", []) else (
+                            a.parent.orelse if a in getattr(
+                                a.parent, "orelse", []) else [])
+                        after = blk[blk.index(a) + 1:] if a in blk else []
+                        okp = False
+                        for st in after:
+                            t_ = txt(st)
+                            if f"self.{memo}.setflags(write=False)" in t_ \
+                                    or f"self.{memo}.flags.writeable = False" \
+                                    in t_:
+                                okp = True
+                        prot = prot and okp
+                    ctx.ob("R17.8", prot,
+                           f"{cls.name}.{m.name} hands out the memo "
+                           f"self.{memo} without copying, and the memo is "
+                           f"made read-only where it is filled" if prot else
+                           f"{cls.name}.{m.name} hands out the writable memo "
+                           f"self.{memo} without copying: an in-place edit "
+                           f"by the caller changes what every later access "
+                           f"returns", node=r,
+                           key=f"{rel}::{cls.name}.{m.name}::memo {memo} "
+                               f"protected")
+    ctx.stat("R17.8 memo hand-out sites", n)
+
+
 def run(ctx):
     repo = ctx.repo
+    ctx.rule("R17.8", "lazily cached feature arrays handed out uncopied are "
+             "read-only", minimum=2)
+    r178(ctx, repo)
     ctx.rule("R17.1", "Cache key covers args, kw names+values, function "
              "identity; one key for lookup/hit/store", minimum=8)
     ctx.rule("R17.2", "array key covers dtype, shape, bytes; arguments "
@@ -697,6 +773,10 @@ MUTANTS = [
       "        density[~bad_out] = valid_density\n"
       "        density[bad_out] = np.nan\n        return density\n"),
      "R17.4"),
+    ("scalar memo writable again (F17b returns)", H5EV,
+     ("            self._array.setflags(write=False)\n", ""), "R17.8"),
+    ("child scalar memo writable again (F17b returns)", HIEV,
+     ("            self._array.setflags(write=False)\n", ""), "R17.8"),
     ("memoised function reads module table", KDE,
      ("    if bins is None:\n        bins = (max(5, bin_num_doane(events_x)),",
       "    if bins is None and methods:\n"
@@ -704,6 +784,9 @@ MUTANTS = [
 ]
 
 TWINS = [
+    ("scalar memo protected through the flags attribute", H5EV,
+     ("            self._array.setflags(write=False)\n",
+      "            self._array.flags.writeable = False\n")),
     ("wrapper: cached result through a local (refactor C17/5)", KDE,
      ("        density[~bad_out] = kde_method(ev_x, ev_y,\n"
       "                                       xo, yo,\n"
